@@ -34,6 +34,10 @@ def items(tier):
                     out.append((sp, {"rule": "TSLACK", "auto_abs": aa, "max_time": F.seq_bound(sp) + 8}))
     for sp in F.fac_specs(tier):
         out.append((sp, {"rule": "TSLACK", "max_time": F.seq_bound(sp) + 8}))
+    # the same invariants on a run that follows an earlier run on the same project object
+    for sp, o in list(out)[:: (7 if tier == "quick" else 2)]:
+        out.append((sp, dict(o, presim=1)))
+        out.append((sp, dict(o, presim=1, presim_absence=[0])))
     return out
 
 
@@ -44,7 +48,7 @@ def run(tier, seed):
     meta = {
         "level": "model_checking",
         "rule": "FS/SS workflows on 3 tasks x every assignment of the tasks to <=2 (thorough 3) components or to none (incl. empty components) x progress/auto variants, "
-        "plus the FAC family (nested components, placement), each explored over absence answers (project, first worker) up to horizon H with <= D non-default answers; "
+        "plus the FAC family (nested components, placement), and a slice of all of these observed on a second simulate() of the same project object, each explored over absence answers (project, first worker) up to horizon H with <= D non-default answers; "
         "non-trivial = distinct (model, component, mixed task-state vector, component state) observations",
         "bounds": {"H": H, "D": D, "base_models": len(its)},
         "assumptions": ["log clause uses the documented display rule (WORKING logged as READY at project-wide absence steps) for tasks and components alike"],
